@@ -21,6 +21,7 @@ from collada import polygons
 from collada import primitive
 from collada.common import DaeObject, E, tag
 from collada.common import DaeIncompleteError, DaeUnsupportedError
+from collada.util import _syncChildren
 
 
 class Geometry(DaeObject):
@@ -224,20 +225,11 @@ class Geometry(DaeObject):
     def save(self):
         """Saves the geometry back to :attr:`xmlnode`"""
         meshnode = self.xmlnode.find(tag('mesh'))
+        srcnodes = []
         for src in self.sourceById.values():
-            if isinstance(src, source.Source):
+            if isinstance(src, source.Source) and src.xmlnode not in srcnodes:
                 src.save()
-                if src.xmlnode not in meshnode:
-                    meshnode.insert(0, src.xmlnode)
-
-        deletenodes = []
-        for oldsrcnode in meshnode.findall(tag('source')):
-            if oldsrcnode not in [src.xmlnode
-                                  for src in self.sourceById.values()
-                                  if isinstance(src, source.Source)]:
-                deletenodes.append(oldsrcnode)
-        for d in deletenodes:
-            meshnode.remove(d)
+                srcnodes.append(src.xmlnode)
 
         # Look through primitives to find a vertex source
         vnode = self.xmlnode.find(tag('mesh')).find(tag('vertices'))
@@ -289,16 +281,10 @@ class Geometry(DaeObject):
         for prim in self.primitives:
             if isinstance(prim, triangleset.TriangleSet) and prim.xmlnode.tag != tag('triangles'):
                 prim._recreateXmlNode()
-            if prim.xmlnode not in meshnode:
-                meshnode.append(prim.xmlnode)
 
-        deletenodes = []
+        # the mesh holds the sources, <vertices> and the primitives, in the model's order
         primnodes = [prim.xmlnode for prim in self.primitives]
-        for child in meshnode:
-            if child.tag != tag('vertices') and child.tag != tag('source') and child not in primnodes:
-                deletenodes.append(child)
-        for d in deletenodes:
-            meshnode.remove(d)
+        _syncChildren(meshnode, srcnodes + [vnode] + primnodes)
 
     def bind(self, matrix, materialnodebysymbol):
         """Binds this geometry to a transform matrix and material mapping.
